@@ -187,6 +187,15 @@ def canonical_functions(alg, fam, text, p):
         t = t.replace("ISAL_%s_" % A, "ISAL_X_")
         t = re.sub(r"\s+", "", t)
         out[role] = t
+    # a caller's proof uses the callee's contract THROUGH the callee's declared parameter types
+    # (implicit conversions at the call site): the declarators of the callees are part of the caller's text
+    sig = ""
+    for fn in ("hash_pad", "hash_init_digest", p["fn_resubmit"]):
+        for m in re.finditer(r"^[A-Za-z_][\w \t\*]*\n" + re.escape(fn) + r"\((?:[^(){};]|\([^()]*\))*\)", text, re.M):
+            d = _strip_comments(m.group(0)).replace(p["fn_resubmit"], "CTX_RESUBMIT").replace("ISAL_%s_" % A, "ISAL_X_")
+            sig += re.sub(r"\s+", "", d) + ";"
+    for role in ("submit", "flush", "resubmit"):
+        out[role] += "|callees:" + sig
     return out
 
 
@@ -229,12 +238,22 @@ class CtxPlan:
         if REFERENCE not in self.files:
             raise overlay.OverlayError("reference instance %s_%s missing" % REFERENCE)
 
-    def groups(self, role, by_param):
+    @staticmethod
+    def _loose(t):
+        """quick tier: the two known benign deltas between template instances are factored out -
+        memcpy_fixedlen instead of memcpy_varlen (same witness contract for both) and SM3's final
+        byte-swap loop; an instance that differs in anything else still forms its own class"""
+        t = t.replace("memcpy_fixedlen", "memcpy_varlen")
+        t = re.sub(r"unsignedintj;", "", t)
+        t = re.sub(r"for\(j=0;j<ISAL_X_DIGEST_NWORDS;j\+\+\)\{ctx->job\.result_digest\[j\]=byteswap32\(ctx->job\.result_digest\[j\]\);\}", "", t)
+        return t
+
+    def groups(self, role, by_param, loose=False):
         """equivalence classes of instances for one role; key includes the parameter set
         when by_param is True"""
         g = {}
         for k, f in sorted(self.files.items()):
-            key = (f["canon"][role], f["pkey"] if by_param else None)
+            key = (self._loose(f["canon"][role]) if loose else f["canon"][role], f["pkey"] if by_param else None)
             g.setdefault(key, []).append(k)
         return list(g.values())
 
@@ -246,7 +265,7 @@ class CtxPlan:
         chosen, transferred = [], {}
         if mode == "all":
             return sorted(self.files.keys()), {}
-        for grp in self.groups(role, by_param=(mode == "per_param")):
+        for grp in self.groups(role, by_param=(mode == "per_param"), loose=(mode == "reference_loose")):
             rep = REFERENCE if REFERENCE in grp else grp[0]
             chosen.append(rep)
             for k in grp:
@@ -285,6 +304,8 @@ class CtxPlan:
         cost = COST.get((aspect, role), 10)
         if aspect == "tape" and role in ("submit", "resubmit"):
             solvers = ("cadical",)  # measured: minisat does not finish the tape aspect within an hour
+            if role == "resubmit":
+                split = True  # each contract-level obligation in its own solver process (800 s -> ~4 min wall)
         return Job(
             "ctx/%s_%s/%s/%s" % (alg, fam, role, aspect), [f["anno"]], includes=inc, defines=defs,
             unwind=24, solvers=list(solvers), timeout=timeout or max(600, cost * 4), split=split,
